@@ -52,7 +52,17 @@ func (kgdb *KVInterfaceGDB) AddVertex(vertices []*gdbi.Vertex) error {
 	// vertices that replace a stored vertex under another label are written
 	// in their own transaction, the others in one batch
 	batch := make([]*gdbi.Vertex, 0, len(vertices))
-	for _, vert := range vertices {
+	ids := make([]string, len(vertices))
+	for i, vert := range vertices {
+		if v := vert.ToVertex(); v.Validate() == nil {
+			ids[i] = v.Gid
+		}
+	}
+	keep := lastByID(ids)
+	for i, vert := range vertices {
+		if !keep[i] {
+			continue
+		}
 		done, err := kgdb.replaceVertex(vert.ToVertex())
 		if err != nil {
 			bulkErr = multierror.Append(bulkErr, err)
@@ -76,6 +86,25 @@ func (kgdb *KVInterfaceGDB) AddVertex(vertices []*gdbi.Vertex) error {
 		return bulkErr.ErrorOrNil()
 	})
 	return err
+}
+
+// lastByID marks the elements of one call that are not replaced by a later
+// element of the same call. Written one by one only the last element with an
+// id remains; written in one batch the earlier ones could not be replaced,
+// because a pending batch cannot be read back. ids[i] is "" for an element
+// that is not valid (it is kept, so that it is reported).
+func lastByID(ids []string) []bool {
+	last := make(map[string]int, len(ids))
+	for i, id := range ids {
+		if id != "" {
+			last[id] = i
+		}
+	}
+	keep := make([]bool, len(ids))
+	for i, id := range ids {
+		keep[i] = id == "" || last[id] == i
+	}
+	return keep
 }
 
 // labelEntryKey is the label-index entry of an element ("v" or "e") of a graph
@@ -225,7 +254,17 @@ func (kgdb *KVInterfaceGDB) AddEdge(edges []*gdbi.Edge) error {
 	// edges that replace a stored edge with other endpoints or another label
 	// are written in their own transaction, the others in one batch
 	batch := make([]*gdbi.Edge, 0, len(edges))
-	for _, edge := range edges {
+	ids := make([]string, len(edges))
+	for i, edge := range edges {
+		if e := edge.ToEdge(); e.Validate() == nil {
+			ids[i] = e.Gid
+		}
+	}
+	keep := lastByID(ids)
+	for i, edge := range edges {
+		if !keep[i] {
+			continue
+		}
 		done, err := kgdb.replaceEdge(edge.ToEdge())
 		if err != nil {
 			bulkErr = multierror.Append(bulkErr, err)
@@ -264,8 +303,24 @@ func (kgdb *KVInterfaceGDB) BulkAdd(stream <-chan *gdbi.GraphElement) error {
 		kgdb.kvg.writeLock.Lock()
 		defer kgdb.kvg.writeLock.Unlock()
 		inserted := 0
+		ids := make([]string, len(batch))
+		for i, elem := range batch {
+			if elem.Vertex != nil {
+				if v := elem.Vertex.ToVertex(); v.Validate() == nil {
+					ids[i] = "v" + v.Gid
+				}
+			} else if elem.Edge != nil {
+				if e := elem.Edge.ToEdge(); e.Validate() == nil {
+					ids[i] = "e" + e.Gid
+				}
+			}
+		}
+		keep := lastByID(ids)
 		rest := batch[:0]
-		for _, elem := range batch {
+		for i, elem := range batch {
+			if !keep[i] {
+				continue
+			}
 			done := false
 			var err error
 			if elem.Vertex != nil {
